@@ -244,7 +244,7 @@ static void c14_type(Reporter& R, const std::string& name, uint64_t id) {
         R.list("c14_types_without_std_hash", name);
       }
     }
-    if (R.want_sample() && (id % 19) == 0 && M > 3) {
+    if (R.want_sample(id, 19) && M > 3) {
       R.sample(J().s("type", name).s("numeric_type", Num<T>::name).raw("a", jarr(st[1])).raw("b", jarr(st[M / 2]))
                    .i("a_lt_b", objs[1] < objs[M / 2]).i("a_eq_b", objs[1] == objs[M / 2]).str());
     }
@@ -355,7 +355,7 @@ static void c16_pair(Reporter& R, const std::string& name, uint64_t id) {
         }
       }
       R.nontrivial(hash_str(key));
-      if (R.want_sample() && (id % 31) == 0 && std::is_same_v<T1, double> && std::is_same_v<T2, float>) {
+      if (R.want_sample(id, 31) && std::is_same_v<T1, double> && std::is_same_v<T2, float>) {
         std::array<T1, N> a;
         for (auto& v : a) v = c16_value<T1>(rng, 0);
         const Q1 q1 = V1::make(a);
@@ -498,7 +498,7 @@ static void c17_type(Reporter& R, const std::string& name, uint64_t id) {
         R.list("c17_types_without_Zero", name);
       }
       R.nontrivial(hash_str(key));
-      if (R.want_sample() && (id % 29) == 0) {
+      if (R.want_sample(id, 29)) {
         R.sample(J().s("type", name).s("numeric_type", Num<T>::name).i("sizeof", sizeof(Q)).i("components", N)
                      .i("trivially_copyable", std::is_trivially_copyable_v<Q>).i("standard_layout", std::is_standard_layout_v<Q>).str());
       }
